@@ -280,6 +280,37 @@ def t_randperm(I, n, device=None, **kw):
     return t
 
 
+def t_sort(I, a, dim=-1, descending=False, **kw):
+    """torch.sort of a 1-D tensor (assumed contract A3): values[j] = a[pi(j)] for a permutation pi of the indices
+    (left inverse, as for randperm) and values are monotone (instantiated for neighbours on access)"""
+    a = lift(a)
+    if a.rank != 1 or len(a.shape[0].factors) > 1:
+        raise Unsupported("sort of a tensor that is not 1-D")
+    nn = a.shape[0].size_term()
+    f = z3.Function(core.fresh_name("sortperm"), z3.IntSort(), z3.IntSort())
+    inv = z3.Function(core.fresh_name("sortinv"), z3.IntSort(), z3.IntSort())
+    cv = zreal if a.dtype == "real" else zint
+
+    def val(j):
+        p = f(j)
+        I.ctx.axiom(z3.Implies(z3.And(j >= 0, j < nn), z3.And(p >= 0, p < nn, inv(p) == j)))
+        return cv(a.at([(p,) if a.shape[0].factors else ()]))
+
+    def fn(idx):
+        j = zint(idx[0][0] if idx[0] else 0)
+        v = val(j)
+        nxt = val(j + 1)
+        I.ctx.axiom(z3.Implies(z3.And(j >= 0, j + 1 < nn), (v >= nxt) if descending else (v <= nxt)))
+        return v
+
+    def fi(idx):
+        j = zint(idx[0][0] if idx[0] else 0)
+        val(j)
+        return f(j)
+
+    return MinMaxResult(Tensor(STensor([a.shape[0]], fn, a.dtype, "sort.values")), Tensor(STensor([a.shape[0]], fi, "int", "sort.indices")))
+
+
 def _ew1(fterm, dom=None):
     def g(I, a, **kw):
         a = lift(a)
@@ -1069,6 +1100,7 @@ def install(I):
         "squeeze": B("squeeze", lambda I2, a, dim=None: _m_squeeze(I2, a if isinstance(a, Tensor) else Tensor(lift(a)), dim)),
         "repeat_interleave": B("repeat_interleave", t_repeat_interleave),
         "index_select": B("index_select", t_index_select),
+        "sort": B("sort", t_sort),
         "numel": B("numel", t_numel),
         "diag": B("diag", t_diag),
         "is_tensor": B("is_tensor", lambda I2, o: isinstance(o, Tensor)),
